@@ -197,6 +197,25 @@ theorem linearizable_witness (evs : Array Ev) (init : String) (h : linearizable 
   obtain ⟨order, hp, hv⟩ := (linearizable_iff evs init).mp h
   exact ⟨order, hp, (Lin.valid_iff order init).mp hv⟩
 
+/-- C04/C18 `linearizable_of_points`: a history whose calls each take effect atomically at some instant inside
+their invocation / response bracket (the shape of every history produced by a system whose operations are single
+atomic steps, e.g. `C04.kvAt_atomic` under a lock or a successful CAS of `C18.Simple`) is `Linearizable`, and the
+executable check accepts it: order the calls by their instants `p`. -/
+theorem linearizable_of_points (evs : Array Ev) (init : String) (order : List Nat)
+    (hperm : order.Perm (List.range evs.size)) (p : Nat → Nat)
+    (hin : ∀ i ∈ order, (evs[i]!).inv ≤ p i ∧ p i ≤ (evs[i]!).ret)
+    (hsorted : order.Pairwise (fun a b => p a < p b))
+    (hrun : (Lin.run (fun i => (evs[i]!).apply) order init).isSome = true) :
+    Linearizable evs init ∧ linearizable evs init = true := by
+  have hl : Linearizable evs init := by
+    refine ⟨order, hperm, (Lin.valid_iff order init).mpr ⟨?_, hrun⟩⟩
+    refine hsorted.imp_of_mem ?_
+    intro a b ha hb hab
+    have h1 := (hin a ha).1
+    have h2 := (hin b hb).2
+    omega
+  exact ⟨hl, (linearizable_iff evs init).mpr hl⟩
+
 /-! non-vacuity: a register history `put a` (1..2), `get -> a` (3..4) is accepted; with `get -> ""` it is refused -/
 def putA : String → Option String := fun _ => some "a"
 def getIs (v : String) : String → Option String := fun st => if st = v then some st else none
